@@ -32,12 +32,17 @@ ASSUMPTIONS = [
 
 LEAVES = {
     "int": ("int", ["1", "'2'", "'x'", "(3, 4)"]),
+    # elements whose conversion fails with another exception class than TypeError / ValueError (OverflowError,
+    # decimal.InvalidOperation): they offend like any other
+    "intof": ("int", ["1", "'2'", "float('inf')", "'x'"]),
+    "dec": ("Decimal", ["Decimal('1.5')", "'2'", "'abc'", "(1,)"]),
     "posint": ("PositiveInt", ["1", "'2'", "-1", "'x'"]),
     "lower": ("RC(str, regex='[a-z]+')", ["'a'", "'bc'", "'1'", "5"]),
 }
 KEYS = {
     "lowerkey": ("RC(str, regex='[a-z]+')", ["'a'", "'bc'", "'1'", "5"]),
     "intkey": ("int", ["1", "'2'", "'x'", "'y7'"]),
+    "intofkey": ("int", ["1", "'2'", "float('inf')", "'x'"]),
 }
 POLICIES = ["throw", "exclude", "preserve"]
 SEQ_CTORS = ["List", "Set", "FrozenSet", "TupleVar", "Deque"]
@@ -52,7 +57,9 @@ def specs(tier):
                    "Deque": "typing.Deque[{0}]"}[c].format(LEAVES[l][0])
             out.append(("seq", ann, (c, l)))
     for k in KEYS:
-        for v in ("int", "posint"):
+        for v in ("int", "posint", "intof", "dec"):
+            if k == "intofkey" and v in ("posint", "dec"):
+                continue
             out.append(("map", f"Dict[{KEYS[k][0]}, {LEAVES[v][0]}]", (k, v)))
     for l in ("int", "posint"):
         out.append(("nested-seq", f"List[List[{LEAVES[l][0]}]]", (l,)))
@@ -388,15 +395,18 @@ def _fields(acc, ann, meta, cache):
     for base in ("Schema", "DataClass"):
         for fpol in (None, "exclude", "preserve", "throw"):
             for cpol in POLICIES:
-                for variant in ("required", "optional", "default"):
+                for variant in ("required", "optional", "default", "modereq", "modeopt"):
                     if fpol == "exclude" and variant == "required":
                         # documented: on_error='exclude' cannot be used on a required field; the class-level policy can
                         pass
+                    # modereq / modeopt: required only in mode 'w' and owning a default; the class is in mode 'w' / 'r'
                     fld = {"required": "Field({oe})", "optional": "Field(required=False{oe2})",
-                           "default": "Field(default=7{oe2})"}[variant]
+                           "default": "Field(default=7{oe2})", "modereq": "Field(required='w', default=7{oe2})",
+                           "modeopt": "Field(required='w', default=7{oe2})"}[variant]
+                    mode = {"modereq": "mode='w', ", "modeopt": "mode='r', "}.get(variant, "")
                     oe = f"on_error={fpol!r}" if fpol else ""
                     fld = fld.format(oe=oe, oe2=(", " + oe) if oe else "")
-                    src = (f"class S({base}):\n    __options__ = Options(invalid_values={cpol!r})\n"
+                    src = (f"class S({base}):\n    __options__ = Options({mode}invalid_values={cpol!r})\n"
                            f"    a: {lexpr} = {fld}\n    b: int = 0\n")
                     try:
                         env = _class(src)
@@ -428,7 +438,7 @@ def _fields(acc, ann, meta, cache):
                                 continue
                             # field b has a default: under a class-level exclude it falls back to it, under preserve it keeps 'x'
                             b_err = b_bad and cpol == "throw"
-                            a_err = (not ok) and (eff == "throw" or (eff == "exclude" and variant == "required"))
+                            a_err = (not ok) and (eff == "throw" or (eff == "exclude" and variant in ("required", "modereq")))
                             if (st == "err") != (a_err or b_err):
                                 _viol(acc, "field-verdict", ann, tag, xexpr, f"{'rejected' if st == 'err' else 'accepted'}: a "
                                       f"{'offends' if not ok else 'is valid'}, b {'offends' if b_bad else 'is valid'}", base)
@@ -441,7 +451,7 @@ def _fields(acc, ann, meta, cache):
                             elif eff == "preserve":
                                 want_a = ("v", ev(vx))
                             else:
-                                want_a = ("absent_or", 7) if variant == "default" else ("absent",)
+                                want_a = ("absent_or", 7) if variant in ("default", "modeopt") else ("absent",)
                             ga = got.get("a", "<absent>")
                             good = ((want_a[0] == "v" and "a" in got and canon(ga) == canon(want_a[1])) or
                                     (want_a[0] == "absent" and "a" not in got) or
